@@ -37,6 +37,10 @@ def run(ck, tier):
     byk = fns_by_key(p)
     _pipeline(ck, p, byk)
     _samedoc(ck, p, byk)
+    # exporting and importing the ignore list restores the same behaviour: the list's lookup invariant survives append (C14)
+    from . import c14, c05
+    ck.rule("R-C16-ignorelist", "ignore_lint / is_ignored / append of the ignore list agree on one representation (rule instances of R-C14-agree, including the keeps-sorted invariant when the list is a sorted vector)")
+    c14._agree(c05._Sub(ck, "R-C16-ignorelist", ""), p)
     for root in ("harper_wasm::Lint", "harper_wasm::Suggestion", "harper_wasm::Span"):
         serde_audit.audit(ck, p, "R-C16-serde", root, last(root))
     # to_json / from_json
